@@ -349,8 +349,20 @@ func (r *rs) pipeCopy() {
 		r.guard("R6.copy", "pSyncPipeCopy/write-after-good-read", wr.Pos(), g, wp, nilFact(rerr), flow.Opaque(g, errKnown(rerr), rerr), "a write happens only after a read that returned no error")
 	}
 	// the counter
+	// the amount counted is n, or the length of the slice that was written
+	written := func(e ast.Expr) bool {
+		e = ast.Unparen(e)
+		return pat.Same(info, e, ast.Unparen(wr.Args[0])) || prefixOf(info, ast.Unparen(flow.Resolve(info, fn.Decl.Body, e)), flow.IsObj(info, buf), flow.IsObj(info, n))
+	}
 	adds := flow.FindCalls(fn.Decl.Body, func(call *ast.CallExpr) bool {
-		return pat.Expr("_c.Add(_v)").Match(info, call, nil) != nil && flow.IsObj(info, n)(unconv(info, call.Args[0]))
+		if pat.Expr("_c.Add(_v)").Match(info, call, nil) == nil {
+			return false
+		}
+		amount := unconv(info, flow.Resolve(info, fn.Decl.Body, unconv(info, call.Args[0])))
+		if lc, ok := amount.(*ast.CallExpr); ok && flow.IsBuiltin(info, lc, "len") && len(lc.Args) == 1 && written(lc.Args[0]) {
+			return true
+		}
+		return flow.IsObj(info, n)(amount)
 	})
 	if len(adds) != 1 {
 		c.Undecidedf("R6.copy", "pSyncPipeCopy/count", fn.Decl.Pos(), "expected one counter.Add(n), found %d", len(adds))
